@@ -16,6 +16,18 @@ import textwrap
 import billiard.pool as bp
 import billiard.common as bc
 import pickle as _pickle
+
+
+def _deep_realize(x):
+    try:
+        from crosshair.tracers import is_tracing
+        if is_tracing():
+            from crosshair.core import deep_realize
+            return deep_realize(x)
+    except ImportError:
+        pass
+    return x
+
 from harness.hbase import Prune, trace, cheap_einfo, untraced
 
 bp.error = lambda *a, **k: None
@@ -154,8 +166,9 @@ class Outq:
     def put(self, m):
         self.ctl.point('put')
         # the message really crosses a pipe: it is pickled (outside the tracer: nothing symbolic is inside a message)
+        mm = _deep_realize(m)          # (CrossHair may hand out proxy strings for repr(): pickle needs the plain values)
         with untraced():
-            _pickle.dumps(m)
+            _pickle.dumps(mm)
         self.msgs.append(m)
         self.ctl.point('put-done')
 
